@@ -24,6 +24,9 @@ import (
 // page registered, with defaults for the others.
 const layoutText = `<html><%= contentOf("cA", {"label": "LA"}) { %>no A<% } %>|<%= contentOf("cB", {"label": "LB"}) { %>no B<% } %>|<%= contentOf("cC", {"label": n1}) { %>no C<% } %>|<%= contentOf("cD", {"label": "LD"}) { %>no D<% } %></html>`
 
+// uni3 maps a small integer to 0..1 deterministically (no draw inside tasks).
+func uni3(n int) int { return n % 2 }
+
 type cacheKeyed struct {
 	text string
 	in   cacheIn
@@ -140,7 +143,7 @@ func c14ExecRun(t *rapid.T) {
 	}
 	var progs []*Program
 	for i := 0; i < nprog; i++ {
-		progs = append(progs, genProgram(t, genOpts{probes: true, mapRegions: true, pureMapBody: true, sideEffects: true, failing: true, failPct: 10, probePct: 15, maxPieces: 4, maxDepth: 2, litModePct: 24}))
+		progs = append(progs, genProgram(t, genOpts{probes: true, mapRegions: true, pureMapBody: true, sideEffects: true, failing: true, failPct: 10, probePct: 15, maxPieces: 4, maxDepth: 2, litModePct: 24, brokenPct: 10}))
 	}
 	cacheOn := scenario == 3 || rapid.Bool().Draw(t, "cache")
 	warm := uni(t, "warm", 3) // 0 cold, 1 some, 2 all
@@ -208,9 +211,13 @@ func c14ExecRun(t *rapid.T) {
 			shared[i], err = plush.NewTemplate(p.Main)
 		}
 		if err != nil {
-			t.Fatalf("VERIF-INTERNAL generated program does not parse: %v", err)
+			if p.Broken == "" {
+				t.Fatalf("VERIF-INTERNAL generated program does not parse: %v", err)
+			}
+			shared[i] = nil // a template that fails to parse: tasks go through Parse/Render and must all get the error
+		} else {
+			snaps = append(snaps, &liveTmpl{t: shared[i], prog: i, snap: snapshot(plush.VerifProgram(shared[i]))})
 		}
-		snaps = append(snaps, &liveTmpl{t: shared[i], prog: i, snap: snapshot(plush.VerifProgram(shared[i]))})
 		if scenario == 2 {
 			parents[i] = mkParent(p)
 		}
@@ -244,7 +251,11 @@ func c14ExecRun(t *rapid.T) {
 				var err error
 				var input string
 				var cops []cacheEvent
-				switch o.kind {
+				kind := o.kind
+				if shared[o.prog] == nil && (kind == 0 || kind == 4 || kind == 5) {
+					kind = 1 + uni3(i+x) // broken text: Parse+Exec, Render or CacheSet+Render
+				}
+				switch kind {
 				case 0:
 					out, err = safeExec(shared[o.prog], ctx)
 				case 4:
